@@ -372,7 +372,9 @@ class ProgGen:
             if x < p.get("wrow", 0.45):
                 out.append(self.row(scope))
             elif x < p.get("wrow", 0.45) + p.get("wlet", 0.2):
-                rebindable = [v for v in scope if not v.startswith("i") or r.random() < p.get("rebind_counter", 0.02)]
+                # loop counters (i*) are rarely re-bound, the dedicated counters of the generated whiles (w*) never: a while
+                # whose counter is overwritten by arbitrary values need not end
+                rebindable = [v for v in scope if not (v.startswith("w") and v[1:].isdigit()) and (not v.startswith("i") or r.random() < p.get("rebind_counter", 0.02))]
                 if rebindable and r.random() < 0.4:
                     name = r.choice(rebindable)
                 else:
